@@ -205,6 +205,11 @@ func parseSd(text string) (evs []sdEv, head map[string]string, headCount map[str
 			evs = append(evs, sdEv{"else", "", ""})
 		case l == "end":
 			evs = append(evs, sdEv{"end", "", ""})
+		case strings.HasPrefix(l, "note over "):
+			f := strings.Fields(strings.TrimSuffix(strings.SplitN(l, ":", 2)[0], ":"))
+			evs = append(evs, sdEv{"note", f[len(f)-1], ""})
+		case strings.HasPrefix(l, "note right") || strings.HasPrefix(l, "note left"):
+			evs = append(evs, sdEv{"noteside", "", ""})
 		case strings.HasPrefix(l, "note "):
 		default:
 			unknown = append(unknown, l)
@@ -233,7 +238,7 @@ func (a *sdApp) ep(n string) *gEp {
 }
 
 // refArrows: [from app or "[", to app] in order; missing = a dangling target was reached
-func (m *sdModel) refArrows(app, ep string) (arrows [][2]string, missing bool) {
+func (m *sdModel) refArrows(app, ep string, bb map[string]string) (arrows [][2]string, missing bool) {
 	inProgress := map[string]bool{}
 	var visit func(from, app, ep string)
 	var walk func(app string, ss []gStmt)
@@ -253,6 +258,9 @@ func (m *sdModel) refArrows(app, ep string) (arrows [][2]string, missing bool) {
 		key := app + " <- " + ep
 		if len(e.Stmts) == 0 || inProgress[key] {
 			return // shown, not expanded again
+		}
+		if c, isBB := bb[key]; isBB && c != "" {
+			return // a black box (an empty comment means the option is ignored)
 		}
 		inProgress[key] = true
 		walk(app, e.Stmts)
@@ -276,9 +284,25 @@ func (m *sdModel) refArrows(app, ep string) (arrows [][2]string, missing bool) {
 func init() { runners["C13"] = runC13 }
 
 type c13Case struct {
-	Model *sdModel `json:"model"`
-	App   string   `json:"app"`
-	Ep    string   `json:"ep"`
+	Model *sdModel          `json:"model"`
+	App   string            `json:"app"`
+	Ep    string            `json:"ep"`
+	BB    map[string]string `json:"blackboxes,omitempty"` // "App <- Ep" -> comment: shown, never expanded
+}
+
+// c13BlackBoxes picks endpoints other than the start to be black boxes, with comments of one
+// character (the placeholder of "no note"), a few words, or empty (ignored)
+func c13BlackBoxes(r *Rand, m *sdModel, app, ep string) map[string]string {
+	bb := map[string]string{}
+	for _, a := range m.Apps {
+		for _, e := range a.Eps {
+			if (a.Name == app && e.Name == ep) || !r.Chance(1, 4) {
+				continue
+			}
+			bb[a.Name+" <- "+e.Name] = Pick(r, []string{"x", "see the other diagram", "-", "", "external system"})
+		}
+	}
+	return bb
 }
 
 func runC13(res *Result, tier string, rnd *Rand, replay string) {
@@ -298,7 +322,7 @@ func runC13(res *Result, tier string, rnd *Rand, replay string) {
 		for _, m := range c13Corpus() {
 			for _, a := range m.Apps {
 				for _, e := range a.Eps {
-					cases = append(cases, c13Case{m, a.Name, e.Name})
+					cases = append(cases, c13Case{Model: m, App: a.Name, Ep: e.Name})
 				}
 			}
 		}
@@ -306,7 +330,12 @@ func runC13(res *Result, tier string, rnd *Rand, replay string) {
 			m := genSdModel(rnd, 1+rnd.Intn(6))
 			for _, a := range m.Apps {
 				for _, e := range a.Eps {
-					cases = append(cases, c13Case{m, a.Name, e.Name})
+					cases = append(cases, c13Case{Model: m, App: a.Name, Ep: e.Name})
+					if rnd.Chance(1, 2) {
+						if bb := c13BlackBoxes(rnd, m, a.Name, e.Name); len(bb) > 0 {
+							cases = append(cases, c13Case{Model: m, App: a.Name, Ep: e.Name, BB: bb})
+						}
+					}
 				}
 			}
 		}
@@ -351,8 +380,12 @@ func runC13(res *Result, tier string, rnd *Rand, replay string) {
 				ch <- r
 			}()
 			l := &cmdutils.Labeler{}
+			bbs := map[string]*cmdutils.Upto{}
+			for k, cm := range c.BB {
+				bbs[k] = &cmdutils.Upto{Comment: cm, ValueType: cmdutils.BBCommandLine}
+			}
 			p := &sequencediagram.SequenceDiagParam{AppLabeler: l, EndpointLabeler: l,
-				Endpoints: []string{c.App + " <- " + c.Ep}, Title: "", Blackboxes: map[string]*cmdutils.Upto{}, AppName: c.App}
+				Endpoints: []string{c.App + " <- " + c.Ep}, Title: "", Blackboxes: bbs, AppName: c.App}
 			t, err := sequencediagram.GenerateSequenceDiag(mod, p, logger)
 			r.text = t
 			if err != nil {
@@ -376,7 +409,19 @@ func runC13(res *Result, tier string, rnd *Rand, replay string) {
 			continue
 		}
 		all = append(all, obs{c, r.text, r.err})
-		reqs = append(reqs, map[string]any{"op": "sd.gen", "module": c.Model.oracleModule(), "app": c.App, "ep": c.Ep})
+		// the option handling keeps a black box whose comment is not empty and blanks a one-character comment
+		var mbb []map[string]string
+		for _, k := range sortedKeys(c.BB) {
+			cm := c.BB[k]
+			if cm == "" {
+				continue
+			}
+			if len(cm) == 1 {
+				cm = ""
+			}
+			mbb = append(mbb, map[string]string{"key": k, "comment": cm})
+		}
+		reqs = append(reqs, map[string]any{"op": "sd.gen", "module": c.Model.oracleModule(), "app": c.App, "ep": c.Ep, "blackboxes": mbb})
 	}
 	reps, err := RunOracleChunks(reqs, 8)
 	if err != nil {
@@ -390,7 +435,7 @@ func runC13(res *Result, tier string, rnd *Rand, replay string) {
 		for _, u := range unknown {
 			res.Disagree(Disagreement{Input: o.c, What: "PlantUML line outside the modelled subset", Impl: u})
 		}
-		ref, missing := o.c.Model.refArrows(o.c.App, o.c.Ep)
+		ref, missing := o.c.Model.refArrows(o.c.App, o.c.Ep, o.c.BB)
 		txt := o.c.Model.text()
 		nontrivial := strings.Contains(txt, "            ") && len(ref) > 1
 		res.Eval(txt+"|"+o.c.App+"|"+o.c.Ep, nontrivial)
@@ -426,7 +471,7 @@ func runC13(res *Result, tier string, rnd *Rand, replay string) {
 			switch e.Kind {
 			case "arrow", "ret":
 				iev = append(iev, fmt.Sprintf("[%s %s %s]", e.Kind, e.A, e.B))
-			case "self", "act", "deact":
+			case "self", "act", "deact", "note":
 				iev = append(iev, fmt.Sprintf("[%s %s]", e.Kind, e.A))
 			case "open":
 				iev = append(iev, fmt.Sprintf("[open %s]", e.A))
